@@ -20,6 +20,11 @@ CHECKS = {
         note=TB + "The cache key (a string in the C++) is modelled as structured data; std::sort by variable is modelled as a stable sort (order-sensitive lists kept below 17 elements where libstdc++ uses insertion sort); ceil(sqrt(n)) on doubles is modelled by Nat.sqrt (agreement checked by the correspondence up to the generated lengths); operations at root level (documented precondition).",
         technique="Lean 4 theorems (invariant + per-constructor semantics, product encoding by strong induction) + differential correspondence of the clause database + DPLL oracle",
         design="§6 C13"),
+    "C14": dict(
+        text="ov_theory (new_var with/without the exactly-one clause, derived variables, allows, value, new_eq with its cache) is modelled in Lean on top of the encoder model of C13. 10 theorems C14_* prove for all domains and all reachable states: a variable created with the clause takes exactly one value in every model and every value can be taken; the planner's unenforced variant adds fresh guards and no clauses; singletons are the constant TRUE; the reported domain is exactly the values whose guard is not false and contains the value taken in any model; the equality literal is true exactly when both variables take the same value and false when they differ, disjoint domains give the constant FALSE, repeated requests hit the cache; requesting an equality loses no model in which neither variable takes two values. Tie: exact equality of ids, guards, root values and the (order-free) clause database on generated histories incl. root-level exclusion of values; DPLL oracle on the implementation's clause database.",
+        note=TB + "Values (var_value*) are identified by integers; ov_theory iterates unordered_maps keyed by pointers, so clause creation order is not a function of the input: after each request the network is propagated and the clause database is compared modulo root values. assume/pop histories over guard literals are covered by C07/C08.",
+        technique="Lean 4 theorems on the object-variable model (built on the proven encoder theorems) + differential correspondence + DPLL oracle",
+        design="§6 C14"),
 }
 
 PENDING = {
